@@ -51,7 +51,11 @@ class _Return(Exception):
         self.value = value
 
 
-class _NeedChoice(Exception):
+class _Break(Exception):
+    pass
+
+
+class _Continue(Exception):
     pass
 
 
@@ -165,8 +169,24 @@ class Interp(object):
             self.bind_syms(st.target, env)
             try:
                 self.block(st.body, env)
+            except (_Break, _Continue):
+                pass
             finally:
                 self.events.append(('endloop',))
+        elif isinstance(st, ast.While):
+            # one symbolic iteration when the test may hold
+            self.events.append(('loop', src(st.test)))
+            try:
+                if self.truth(self.eval_cond(st.test, env), st.test):
+                    self.block(st.body, env)
+            except (_Break, _Continue):
+                pass
+            finally:
+                self.events.append(('endloop',))
+        elif isinstance(st, ast.Break):
+            raise _Break()
+        elif isinstance(st, ast.Continue):
+            raise _Continue()
         elif isinstance(st, ast.Raise):
             name = None
             if st.exc is not None:
